@@ -42,8 +42,9 @@ def gen_expr(rng, atoms, depth=0):
 def gen_program(rng, idx):
     m = rng.choice([2, 3, 3, 4])
     names = [f"S{t}" for t in range(1, m + 1)]
-    starts = {nm: rng.choice(["0", "0", None, "1"]) for nm in names}
-    starts[names[0]] = rng.choice(["0", "0", None])
+    # start = "A_0": the zeroth order is the input's zeroth order, on EVERY block
+    starts = {nm: rng.choice(["0", "0", None, "1", '"A_0"']) for nm in names}
+    starts[names[0]] = rng.choice(["0", "0", None, '"A_0"'])
     zero_start = [nm for nm in names if starts[nm] == "0"]
     products = []
     # products closing the recursion: all factors start at zero
@@ -134,7 +135,8 @@ def generated_specs(rng, n):
         k = rng.choice([1, 1, 2])
         masked = sorted(rng.sample(range(nb), rng.randint(0, nb))) if rng.random() < 0.4 else []
         out.append(dict(algo=f"generated", source=src, hermitian=False, nb=nb, sizes=sizes, k=k,
-                        N=3 if k == 1 else 2, masked=masked, flags={}, _func=fn, _prog=prog))
+                        N=3 if k == 1 else 2, masked=masked, flags={}, generic_zeroth=rng.random() < 0.7,
+                        _func=fn, _prog=prog))
     return out
 
 
